@@ -219,7 +219,8 @@ def _array_resolve(operator, element, time, dimensions):
             if(string_term_cur != ""):
                 string_term += string_term_cur + operator
         return string_term[:-len(operator)]
-    return rec_resolve(element, 0)
+    resolved = rec_resolve(element, 0)
+    return "(" + resolved + ")" if resolved != "" else resolved
 
 
 def _matrix_element_to_string(element, time, flat=False):
@@ -474,7 +475,7 @@ class PowerOperator(Operator):
         element = extractTerm(self.element, time)
         power = extractTerm(self.power, time)
 
-        return "({} ** {} )".format(element, power)
+        return "(({}) ** ({}) )".format(element, power)
 
 
 class ComparisonOperator(BinaryOperator):
@@ -489,7 +490,7 @@ class ComparisonOperator(BinaryOperator):
     def term(self, time="t"):
         element_1 = extractTerm(self.element_1, time)
         element_2 = extractTerm(self.element_2, time)
-        return str(element_1) + "{}".format(self.sign) + str(element_2)
+        return "(" + str(element_1) + "{}".format(self.sign) + str(element_2) + ")"
 
     def resolve_dimensions(self):
         return -1
@@ -524,7 +525,7 @@ class NaryOperator(Operator):
 
 class ModOperator(BinaryOperator):
     def term(self, time="t"):
-        return self.element_1.term(time) + "%" + self.element_2.term(time)
+        return "((" + self.element_1.term(time) + ")%(" + self.element_2.term(time) + "))"
 
 
 class AdditionOperator(BinaryOperator):
@@ -546,18 +547,18 @@ class AdditionOperator(BinaryOperator):
                     cur_el2 = self.element_2
                     for i in self.index:
                         cur_el2 = cur_el2[i]
-                    return "{} + {}".format(cur_el1.term(time), cur_el2.term(time))
+                    return "({} + {})".format(cur_el1.term(time), cur_el2.term(time))
                 else:
-                    return "{} + {}".format(cur_el1.term(time), self.element_2.term(time))
+                    return "({} + {})".format(cur_el1.term(time), self.element_2.term(time))
             elif(el2_arrayed):
                 cur_el2 = self.element_2
                 for i in self.index:
                     cur_el2 = cur_el2[i]
-                return "{} + {}".format(self.element_1.term(time), cur_el2.term(time))
+                return "({} + {})".format(self.element_1.term(time), cur_el2.term(time))
             else:
-                return self.element_1.term(time) + "+" + self.element_2.term(time)
+                return "(" + self.element_1.term(time) + "+" + self.element_2.term(time) + ")"
         else:
-            return self.element_1.term(time) + "+" + self.element_2.term(time)
+            return "(" + self.element_1.term(time) + "+" + self.element_2.term(time) + ")"
 
     def resolve_dimensions(self):
         dim1 = _get_element_dimensions(self.element_1)
@@ -607,18 +608,18 @@ class SubtractionOperator(BinaryOperator):
                     cur_el2 = self.element_2
                     for i in self.index:
                         cur_el2 = cur_el2[i]
-                    return "{} - {}".format(cur_el1.term(time), cur_el2.term(time))
+                    return "({} - {})".format(cur_el1.term(time), cur_el2.term(time))
                 else:
-                    return "{} - {}".format(cur_el1.term(time), self.element_2.term(time))
+                    return "({} - {})".format(cur_el1.term(time), self.element_2.term(time))
             elif(el2_arrayed):
                 cur_el2 = self.element_2
                 for i in self.index:
                     cur_el2 = cur_el2[i]
-                return "{} - {}".format(self.element_1.term(time), cur_el2.term(time))
+                return "({} - {})".format(self.element_1.term(time), cur_el2.term(time))
             else:
-                return self.element_1.term(time) + "-" + self.element_2.term(time)
+                return "(" + self.element_1.term(time) + "-" + self.element_2.term(time) + ")"
         else:
-            return self.element_1.term(time) + "-" + self.element_2.term(time)
+            return "(" + self.element_1.term(time) + "-" + self.element_2.term(time) + ")"
 
     def resolve_dimensions(self):
         dim1 = _get_element_dimensions(self.element_1)
@@ -895,7 +896,7 @@ class DotOperator(BinaryOperator):
                     for i in range(dim1[0]):
                         result += "({}) * ({}) + ".format(
                             self.element_1[i].term(time), self.element_2[i].term(time))
-                    return result[:-3]
+                    return "(" + result[:-3] + ")"
             return "0.0"
 
         # Value
@@ -927,7 +928,7 @@ class DotOperator(BinaryOperator):
                 for i in range(dim1[0]):
                     result += "({}) * ({}) + ".format(
                         self.element_1[i].term(time), self.element_2[i].term(time))
-                return result[:-3]
+                return "(" + result[:-3] + ")"
 
             # Vector * Matrix
             if dim1[0] != dim2[0]:  # Vector matrix
@@ -944,7 +945,7 @@ class DotOperator(BinaryOperator):
             for k in range(dim2[0]):
                 res += "({}) * ({}) + ".format(_get_sub_element_term(self.element_1,
                                                                      [k], time), _get_sub_element_term(self.element_2, [k, index], time))
-            return res[:-3]
+            return "(" + res[:-3] + ")"
 
         if len(dim2) == 1 or dim2[1] == 0:  # Matrix * Vector
             if dim1[1] != dim2[0]:
@@ -962,7 +963,7 @@ class DotOperator(BinaryOperator):
             for k in range(dim1[1]):
                 res += "({}) * ({}) + ".format(_get_sub_element_term(self.element_1,
                                                                      [index, k], time), _get_sub_element_term(self.element_2, [k], time))
-            return res[:-3]
+            return "(" + res[:-3] + ")"
 
         # Matrix * Matrix
         if isinstance(self.index, int) or len(self.index) != 2:
@@ -976,7 +977,7 @@ class DotOperator(BinaryOperator):
         for k in range(dim1[1]):
             res += "({}) * ({}) + ".format(_get_sub_element_term(self.element_1,
                                                                  [self.index[0], k], time), _get_sub_element_term(self.element_2, [k, self.index[1]], time))
-        return res[:-3]
+        return "(" + res[:-3] + ")"
 
         return super().term(time)
 
@@ -1387,7 +1388,7 @@ class Sinwave(Function):
         self.amplitude = amplitude
         self.period = period
 
-    def term(self, time="t"): return "( np.sin(2*np.pi / {} * (t-model.starttime) ) * {} )".format(
+    def term(self, time="t"): return "( np.sin(2*np.pi / ({}) * (t-model.starttime) ) * ({}) )".format(
         extractTerm(self.period, time), extractTerm(self.amplitude, time))
 
 
@@ -1396,7 +1397,7 @@ class Coswave(Function):
         self.amplitude = amplitude
         self.period = period
 
-    def term(self, time="t"): return "( np.cos(2*np.pi / {} * (t-model.starttime) ) * {} )".format(
+    def term(self, time="t"): return "( np.cos(2*np.pi / ({}) * (t-model.starttime) ) * ({}) )".format(
         extractTerm(self.period, time), extractTerm(self.amplitude, time))
 
 
